@@ -250,4 +250,23 @@ def sweep(ctx, n_rounds):
                                 report(f"foreign-error:{name}:{err}", f"malformed value {vrepr} raised {err} instead of the library's input error (via {via})", {"attr": name, "value": vrepr, "via": via})
                             elif via == "setter" and snapshot(obj) != before:
                                 report(f"rejected-changed-object:{name}", f"rejected value {vrepr} changed the object", {"attr": name, "value": vrepr})
+        # the two views of a magnet's excitation: assigning None to either withdraws the excitation as a whole
+        # (both read back None, field computation refuses with the library's missing-input error), like constructing with None
+        from oracles.sources import MAGNETS, make as _make
+        for cls in MAGNETS:
+            for attr, other in (("magnetization", "polarization"), ("polarization", "magnetization")):
+                nps = np.random.default_rng(rng.randrange(2**31))
+                o = _make(cls, nps)
+                setattr(o, attr, None)
+                done += 1
+                refused = False
+                try:
+                    o.getB((3.0, 2.0, 1.0))
+                except MagpylibMissingInput:
+                    refused = True
+                except Exception:  # noqa: BLE001
+                    refused = False
+                if getattr(o, attr) is not None or getattr(o, other) is not None or not refused:
+                    report(f"none-not-stored:{attr}", f"after `{attr} = None` on a {cls}: {attr}={getattr(o, attr)!r}, {other}={getattr(o, other)!r}, getB refused={refused}",
+                           {"class": cls, "attribute": attr})
     return fails, {"c17_assignments": done, **stats}
